@@ -11,6 +11,7 @@ C16.d  serialisation level: written first, checked (throwing XSerializationExcep
        before anything else is read
 C16.e  diagnostics matrix (DIAG)
 """
+import json
 import os
 import re
 
@@ -32,6 +33,92 @@ def _engine_functions(f):
     return fns
 
 
+def _field_ctx(items, ctx="always", out=None):
+    """field -> 'always' when some wire operation on it is executed on every path of the storing branch, else 'cond'."""
+    if out is None:
+        out = {}
+    for it in items:
+        if it[0] == "op":
+            if it[3]:
+                if ctx == "always" or it[3] not in out:
+                    out[it[3]] = ctx if out.get(it[3]) != "always" else "always"
+        elif it[0] == "loop":
+            _field_ctx(it[1], ctx, out)
+        else:
+            for a in it[1]:
+                _field_ctx(a, "cond", out)
+    return out
+
+
+def persisted_rule(rep, field_ctx):
+    """store == load (C16.a) cannot see a member that both sides stopped writing, or that both sides now write only under a
+    condition: the stream stays symmetric and the restored object silently differs.  The set of members each class
+    persisted on the confirmed tree is the reference (baselines/serial_fields.json)."""
+    rep.rule("C16.e", "persisted state is not narrowed: every member a class's serialize() wrote on the confirmed tree is still "
+             "written, and a member that was written unconditionally is not written under a condition now (per class, from the "
+             "store-side wire program with base classes and helpers inlined; new members are fine). A member that silently "
+             "leaves the stream — symmetrically on both sides — comes back default-initialised")
+    bp = os.path.join(core.VERIF, "baselines", "serial_fields.json")
+    if os.environ.get("VERIF_REBASELINE") == "serial_fields":
+        json.dump({c: v[0] for c, v in sorted(field_ctx.items())}, open(bp, "w"), indent=0, sort_keys=True)
+    if not os.path.exists(bp):
+        raise AnalysisBroken("baseline baselines/serial_fields.json is missing")
+    base = json.load(open(bp))
+    n = 0
+    for cls, flds in sorted(base.items()):
+        if cls not in field_ctx:
+            rep.notes.append("C16.e: class %s of the baseline has no serialize() any more" % cls)
+            continue
+        now, where = field_ctx[cls]
+        for fld, ctx in sorted(flds.items()):
+            n += 1
+            if fld not in now:
+                rep.ob("C16.e", "%s/%s" % (cls, fld), False, "%s::serialize no longer writes %s: the member is not persisted and comes back "
+                       "default-initialised from a restored grammar pool" % (cls, fld), where)
+            elif ctx == "always" and now[fld] != "always":
+                rep.ob("C16.e", "%s/%s" % (cls, fld), False, "%s::serialize now writes %s only under a condition (it was written "
+                       "unconditionally): for the other cases the member is not persisted" % (cls, fld), where)
+            else:
+                rep.ob("C16.e", "%s/%s" % (cls, fld), True, "persisted (%s)" % now[fld], where)
+    rep.floor("C16.e", n, 200)
+
+
+VALUE_MEMBER_EXEMPT = {
+    "XMLBigDecimal::fRawDataLen": "capacity of the fRawData buffer: passed to writeString/readString as the buffer length, re-established by readString",
+    "XMLDateTime::fBufferMaxLen": "capacity of fBuffer: passed to writeString/readString as the buffer length, re-established by readString",
+}
+
+
+def value_members_rule(rep, f, field_ctx):
+    rep.rule("C16.f", "value objects are persisted whole: for every concrete class of the XMLNumber family (the values of facets, "
+             "enumerations and fixed/default constraints stored in a grammar: XMLBigDecimal, XMLDouble, XMLFloat, XMLDateTime) each "
+             "data member of arithmetic or enumeration type, own or inherited, is written by serialize() — a numeric member left "
+             "out comes back as the constructor's default and the restored facet compares differently (exemptions: buffer "
+             "capacities, one named member each)")
+    n = 0
+    for cls in sorted(f.classes):
+        if cls == "XMLNumber" or not f.is_derived(cls, "XMLNumber") or cls not in field_ctx:
+            continue
+        now, where = field_ctx[cls]
+        chain, c = [], cls
+        while c and c in f.classes and c != "XMLNumber":
+            chain.append(c)
+            bs = [b.split("<")[0] for b in f.classes[c]["bases"]]
+            c = bs[0] if bs else None
+        for c in chain:
+            for name, ty in f.classes[c]["fields"]:
+                if "*" in ty or "&" in ty or ty.startswith("MemoryManager"):
+                    continue
+                n += 1
+                key = "%s::%s" % (c, name)
+                ok = name in now or key in VALUE_MEMBER_EXEMPT
+                rep.ob("C16.f", "%s/%s" % (cls, name), ok,
+                       ("persisted" if name in now else "exempt: " + VALUE_MEMBER_EXEMPT[key]) if ok else
+                       "%s::serialize does not write %s (%s): a %s restored from a serialized grammar pool has the constructor's default "
+                       "there, so facet bounds, enumeration and fixed values compare differently after a round trip" % (cls, key, ty, cls), where)
+    rep.floor("C16.f", n, 20)
+
+
 def run(rep):
     f = core.library_facts()
     fns = _engine_functions(f)
@@ -50,6 +137,7 @@ def run(rep):
              "hoisted) and each value is loaded into the member it was stored from")
     n = 0
     total_ops = 0
+    field_ctx = {}
     for q in sorted(sts):
         if not q.endswith("::serialize"):
             continue
@@ -65,6 +153,7 @@ def run(rep):
                 continue
             d = []
             serial.compare(st, ld, FIELD_ALIAS, cls, d)
+            field_ctx[cls] = (_field_ctx(st), "%s:%d" % (s["file"], s["line"]))
             nops = serial.count_ops(st)
             total_ops += nops
             n += 1
@@ -73,6 +162,8 @@ def run(rep):
                    "%s:%d" % (s["file"], s["line"]), detail={"store": _render(st), "load": _render(ld)})
     rep.count(total_ops)
     rep.floor("C16.a/serialize", n, 60)
+    persisted_rule(rep, field_ctx)
+    value_members_rule(rep, f, field_ctx)
 
     # ------------------------------------------------------------------ C16.a templates
     rep.rule("C16.a/template", "every XTemplateSerializer::storeObject(C*) has a loadObject(C**) for the same container type "
